@@ -23,6 +23,7 @@ class PathAbort(BaseException):
 
 QUERY_TIMEOUT_MS = int(os.environ.get("SX_QUERY_TIMEOUT_MS", "60000"))
 FORK_TIMEOUT_MS = int(os.environ.get("SX_FORK_TIMEOUT_MS", "10000"))
+JOB_BUDGET_S = float(os.environ.get("SX_JOB_BUDGET_S", "0") or 0)
 MAX_PATHS = int(os.environ.get("SX_MAX_PATHS", "200000"))
 
 
@@ -144,6 +145,7 @@ class Ctx:
         self.nondet = []  # nondeterminism events of the current path
         self.seed = int(os.environ.get("VERIF_SEED", "0") or 0)
         self.on_shared_access = None  # C14 scheduler hook
+        self.deadline = 0
 
     # ---- lifecycle
     def start(self):
@@ -482,6 +484,8 @@ def explore(fn, on_path, max_paths=None):
                     return n
             if n >= max_paths:
                 raise Inconclusive(f"path limit {max_paths} reached")
+            if ctx.deadline and time.time() > ctx.deadline:
+                raise Inconclusive(f"job time budget exhausted after {n} paths")
             if not ctx.backtrack():
                 break
     finally:
